@@ -3,10 +3,24 @@ import NitroVerif.Lemmas.SkipConcScan
   Whole-scan reasoning, part 2: the INSTRUMENTED RUN and the scan invariant behind `C15_complete`.
 
   A scan of iterator `it` of thread `t` = an effective `start t (it_first it)` or `start t (it_seek it x)` followed
-  by `it_next it` calls of the same thread, interleaved arbitrarily with everything else.  The ghost record `Ghost`
+  by `it_next it` calls and explicit `it_refresh it` calls (the public `Refresh()`) of the same thread in any order,
+  interleaved arbitrarily with everything else.  The ghost record `Ghost`
   (history variables; NOT part of the model, `runG_fst` proves the projection of the instrumented run equal to
   `Sys.run`) remembers for the current scan: the heap length when its first call started, the seek key, and the list
   of cursor nodes after each completed call (`positions`, with the heap length at each return in `stamps`).
+
+  HOW AN EXPLICIT REFRESH IS RECORDED (`Ghost.refreshing`, `Ghost.onStep`).  `refreshing` is set by the accepted entry
+  of `it_refresh it` and cleared when that call returns.  When the call returns
+    * on the node that is already the last position (the node under the cursor was still there): NOTHING NEW is
+      delivered — `positions` does not grow; the stamp of that last position is replaced by the number of published
+      nodes at this return (the node has just been found again by a search, so what is known about it — `Uniq`, and
+      hence "an equal key afterwards comes from a node published later" — now holds for the later state);
+    * on another node (the node under the cursor was deleted meanwhile, Seek(item) landed behind it): that node is the
+      cursor, i.e. what the user's next `Get()` returns, so it IS a returned position and is appended like the result
+      of a Next.
+  In both cases `returns` grows (the call has returned a position).  Returns of Seek / Next (the automatic refresh
+  inside Next included) always append: the "same node" rule is applied to explicit refreshes only, so a Next that
+  stayed on its node would show up as a violation of `C15_monotone`, not be hidden by the ghost.
 
   Invariant `ScanInv` (per phase of the call in progress): every node published before the scan started, unmarked
   now, not the head and with key ≥ the seek key is one of `positions` or is reachable along level 0 from the
@@ -28,15 +42,23 @@ structure Ghost where
   positions : List Nat := []
   /-- heap length in the state each of those calls returned -/
   stamps : List Nat := []
-  /-- number of calls on the iterator that have returned a position so far (over all its scans) -/
+  /-- number of calls on the iterator that have returned a position so far (over all its scans; explicit refreshes
+      included, whether they land on the same node or on a later one) -/
   returns : Nat := 0
+  /-- an explicit `Refresh()` of the iterator (`Op.itRefresh`) has been entered and has not returned yet -/
+  refreshing : Bool := false
 deriving Repr, DecidableEq
 
-/-- ghost update of a segment of the scanning thread: a call on the iterator returns (the thread becomes idle) -/
+/-- ghost update of a segment of the scanning thread: a call on the iterator returns (the thread becomes idle).
+    An explicit refresh that returns on the node that is already the last position does not grow `positions` (only the
+    stamp of that position is renewed); every other return appends the cursor. -/
 def Ghost.onStep (g : Ghost) (it : Nat) (th : Thread) (r : Res) : Ghost :=
   if pcIter th.pc = some it ∧ isIdle r.2.1.pc = true then
-    { g with positions := g.positions ++ [(r.2.1.iter it).curr], stamps := g.stamps ++ [r.1.heap.length],
-             returns := g.returns + 1 }
+    if g.refreshing = true ∧ g.positions.getLast? = some (r.2.1.iter it).curr then
+      { g with stamps := g.stamps.dropLast ++ [r.1.heap.length], returns := g.returns + 1, refreshing := false }
+    else
+      { g with positions := g.positions ++ [(r.2.1.iter it).curr], stamps := g.stamps ++ [r.1.heap.length],
+               returns := g.returns + 1, refreshing := false }
   else g
 
 /-- ghost update of a call entry of the scanning thread -/
@@ -52,6 +74,9 @@ def Ghost.onStart (g : Ghost) (it : Nat) (sh : Shared) (th : Thread) : Op → Gh
       { active := true, startLen := sh.heap.length, lo := some x, positions := [], stamps := [], returns := g.returns }
     else g
   | .itClose it' => if it' = it then { g with active := false } else g
+  | .itRefresh it' =>
+    -- `refreshing` = the entry was accepted (the thread is parked at ITER_REFRESH); a refused entry changes nothing
+    if it' = it then { g with refreshing := !isIdle (startOp sh th (.itRefresh it)).2.1.pc } else g
   | _ => g
 
 /-- the history variables of the scan of iterator `it` of thread `t`, updated along an action -/
@@ -171,6 +196,36 @@ theorem Ghost.onStep_other (g : Ghost) (it : Nat) (th : Thread) (r : Res) (h : p
   rw [if_neg]
   exact fun c => h c.1
 
+/-- what a returning segment of a call on the iterator does to the history variables -/
+theorem Ghost.onStep_ret (g : Ghost) (it : Nat) (th : Thread) (r : Res) (hown : pcIter th.pc = some it)
+    (hidle : isIdle r.2.1.pc = true) :
+    (g.onStep it th r).startLen = g.startLen ∧ (g.onStep it th r).lo = g.lo ∧
+    (g.onStep it th r).active = g.active ∧ (g.onStep it th r).returns = g.returns + 1 ∧
+    (((g.onStep it th r).positions = g.positions ∧ (g.onStep it th r).stamps = g.stamps.dropLast ++ [r.1.heap.length] ∧
+        g.refreshing = true ∧ g.positions.getLast? = some (r.2.1.iter it).curr) ∨
+     ((g.onStep it th r).positions = g.positions ++ [(r.2.1.iter it).curr] ∧
+        (g.onStep it th r).stamps = g.stamps ++ [r.1.heap.length] ∧
+        ¬ (g.refreshing = true ∧ g.positions.getLast? = some (r.2.1.iter it).curr))) := by
+  unfold Ghost.onStep
+  rw [if_pos ⟨hown, hidle⟩]
+  by_cases hc : g.refreshing = true ∧ g.positions.getLast? = some (r.2.1.iter it).curr
+  · rw [if_pos hc]
+    exact ⟨rfl, rfl, rfl, rfl, .inl ⟨rfl, rfl, hc.1, hc.2⟩⟩
+  · rw [if_neg hc]
+    exact ⟨rfl, rfl, rfl, rfl, .inr ⟨rfl, rfl, hc⟩⟩
+
+theorem Ghost.onStep_active (g : Ghost) (it : Nat) (th : Thread) (r : Res) : (g.onStep it th r).active = g.active := by
+  unfold Ghost.onStep
+  split
+  · split <;> rfl
+  · rfl
+
+/-- the scan invariant reads only `startLen`, `lo` and `positions` of the history variables -/
+theorem ScanInv.congr {h : Heap} {g g' : Ghost} {it : Nat} {th : Thread} (e1 : g'.startLen = g.startLen)
+    (e2 : g'.lo = g.lo) (e3 : g'.positions = g.positions) (b : ScanInv h g it th) : ScanInv h g' it th := by
+  unfold ScanInv at *
+  rw [e1, e2, e3]; exact b
+
 /-- the cursor has arrived at a node from which everything not yet returned is reachable, and the call either
     returns or parks before the automatic refresh -/
 theorem ScanInv.arrive {g : Ghost} {it : Nat} {th : Thread} {r : Res} (hown : pcIter th.pc = some it)
@@ -178,13 +233,16 @@ theorem ScanInv.arrive {g : Ghost} {it : Nat} {th : Thread} {r : Res} (hown : pc
     (hcov : Cov r.1.heap g.startLen g.lo g.positions (r.2.1.iter it).curr)
     (hpc : r.2.1.pc = .idle ∨ r.2.1.pc = .iterRefresh it) : ScanInv r.1.heap (g.onStep it th r) it r.2.1 := by
   rcases hpc with h | h
-  · have hg : g.onStep it th r =
-        { g with positions := g.positions ++ [(r.2.1.iter it).curr], stamps := g.stamps ++ [r.1.heap.length],
-                 returns := g.returns + 1 } := by
-      unfold Ghost.onStep
-      rw [if_pos ⟨hown, by rw [h]; rfl⟩]
-    rw [hg]
-    refine ⟨hL, .inl ⟨.inl (by rw [h]; simp [pcIter]), hcov.append _, ⟨g.positions, rfl⟩⟩⟩
+  · obtain ⟨e1, e2, _, _, hpos⟩ := g.onStep_ret it th r hown (by rw [h]; rfl)
+    unfold ScanInv
+    rw [e1, e2]
+    refine ⟨hL, .inl ⟨.inl (by rw [h]; simp [pcIter]), ?_, ?_⟩⟩
+    · rcases hpos with ⟨hp, _⟩ | ⟨hp, _⟩
+      · rw [hp]; exact hcov
+      · rw [hp]; exact hcov.append _
+    · rcases hpos with ⟨hp, _, _, hl⟩ | ⟨hp, _⟩
+      · rw [hp]; exact List.getLast?_eq_some_iff.mp hl
+      · exact ⟨g.positions, hp⟩
   · rw [g.onStep_stay it th r (by rw [h]; rfl)]
     exact ⟨hL, .inr (.inl ⟨h, hcov⟩)⟩
 
@@ -518,6 +576,23 @@ theorem scan_start_own {sh : Shared} {th : Thread} {g : Ghost} {it : Nat} (_H : 
       · exact ⟨hL, .inl ⟨.inl hid, hc, hm⟩⟩
     · refine other ?_ rfl
       simp [opIter]; exact hi
+  | itRefresh it' =>
+    by_cases hi : it' = it
+    · subst hi
+      intro hact
+      simp only [Ghost.onStart, if_true] at hact ⊢
+      obtain ⟨hc, hm⟩ := rest hact
+      obtain ⟨hL, _⟩ := inv hact
+      refine ScanInv.congr (g := g) rfl rfl rfl ?_
+      simp only [startOp]
+      split
+      · split
+        · exact ⟨hL, .inr (.inl ⟨rfl, hc⟩)⟩
+        · exact ⟨hL, .inl ⟨.inl hid, hc, hm⟩⟩
+      · exact ⟨hL, .inl ⟨.inl hid, hc, hm⟩⟩
+    · refine other ?_ ?_
+      · simp [opIter]; exact hi
+      · simp only [Ghost.onStart, if_neg hi]
 
 /-! ### system level -/
 
@@ -615,8 +690,7 @@ theorem actG_pred {P : Heap → Ghost → Nat → Thread → Prop}
         by_cases htt : t' = t
         · rw [if_pos htt]
           subst htt
-          have hg : (g.onStep it th (stepThread s.sh th)).active = g.active := by
-            unfold Ghost.onStep; split <;> rfl
+          have hg : (g.onStep it th (stepThread s.sh th)).active = g.active := g.onStep_active ..
           intro hact
           rw [hg] at hact
           obtain ⟨th0, h0, inv⟩ := b hact
